@@ -188,6 +188,14 @@ class RangeEval(object):
         t = norm(test)
         if t.startswith('sys.version_info >='):
             return env, None            # Python 3 only (setup.py: python_requires)
+        if isinstance(test, ast.BoolOp) and isinstance(test.op, ast.And):
+            # true branch: every conjunct holds; false branch: no information
+            te = env
+            for c in test.values:
+                if te is None:
+                    break
+                te, _ = self.refine(c, te)
+            return te, env
         if isinstance(test, ast.Compare) and len(test.ops) == 1 and \
                 isinstance(test.left, ast.Name) and test.left.id in env:
             name = test.left.id
